@@ -1,36 +1,92 @@
 """C19 — version comparison is a consistent order; constraint logic is sound.
-Theorems: coq/Props/C19.v.  Model: coq/Version/Model.v.  Implementation:
-mesonbuild/utils/universal.py (Version, version_compare*, Range, version_check_to_range)."""
+Theorems: coq/Props/C19.v.  Model: coq/Version/{Unicode,Model,Feature,Search}.v.  Implementation:
+mesonbuild/utils/universal.py (Version, version_compare*, Range, version_check_to_range,
+version_compare_condition_with_min, search_version) and mesonbuild/interpreterbase/decorators.py
+(FeatureNew / FeatureDeprecated / FeatureBroken: check_version, use, report)."""
 import itertools, json
 from common import *
 
-MARK = '\x03'
+SEP2, MARK, SEP4 = '\x02', '\x03', '\x04'
 ALPHA = ['0', '1', '2', '9', '10', '00', '01', '007', '12', 'a', 'b', 'rc', 'Z', 'aa', 'beta', 'A']
 SEPS = ['.', '-', '_', '+', '~', ':', ' ', '', '..', '\t', 'é', '€', '/']
 OPSP = ['<', '<=', '==', '=', '!=', '>=', '>', '']
+# starts of some Unicode decimal-digit blocks (Arabic-Indic, Devanagari, Thai, fullwidth, mathematical bold, Adlam)
+UBLOCKS = [0x660, 0x6F0, 0x966, 0xE50, 0xFF10, 0x1D7CE, 0x1D7D8, 0x1E950, 0x1FBF0]
+BLANKS = [' ', '\t', '\n', '\x0b', '\x1f', '\x85', '\xa0', '\u2003', '\u3000', '\u200b']   # the last one is NOT a blank
+INT_LIMIT = 4300
+
+
+def gen_digits(rng):
+    k = rng.random()
+    if k < 0.5:
+        return rng.choice(['0', '1', '2', '9', '10', '12', '99', '100'])
+    if k < 0.65:   # leading zeros
+        return '0' * rng.randint(1, 4) + rng.choice(['', '1', '9', '10'])
+    if k < 0.8:    # long runs (value compared numerically, far beyond 64 bits)
+        n = rng.choice([18, 19, 20, 21, 38, 39, 40, 60])
+        return rng.choice(['1', '9', '0']) + ''.join(rng.choice('0189') for _ in range(n - 1))
+    # Unicode decimal digits, possibly mixed with ASCII ones inside one run
+    b = rng.choice(UBLOCKS)
+    return ''.join(chr(b + rng.randint(0, 9)) if rng.random() < 0.7 else rng.choice('019') for _ in range(rng.randint(1, 3)))
 
 
 def gen_version(rng):
     k = rng.choice([0, 1, 1, 2, 2, 3, 3, 4, 5])
     parts = []
     for i in range(k):
-        parts.append(rng.choice(ALPHA))
+        r = rng.random()
+        if r < 0.6:
+            parts.append(rng.choice(ALPHA))
+        elif r < 0.85:
+            parts.append(gen_digits(rng))
+        else:      # mixed alnum components without separator: 1a2, rc1, 2B
+            parts.append(rng.choice(['1a2', 'rc1', '2B', 'a1', '0x1F', '1e5', 'B2b']))
         if i + 1 < k or rng.random() < 0.15:
             parts.append(rng.choice(SEPS))
     s = ''.join(parts)
-    if rng.random() < 0.1:
+    r = rng.random()
+    if r < 0.1:
         s = rng.choice([' ', '\t', 'v', '-']) + s
+    elif r < 0.13:
+        s = rng.choice(['.', '..', '-.-', '  ', '\u3000', '\ud800', '\U0010ffff']) + (s if rng.random() < 0.5 else '')
+    elif r < 0.16:
+        s = s.swapcase()
     if rng.random() < 0.05:
-        s = s + rng.choice([' ', '\n', ' '])
+        s = s + rng.choice([' ', '\n', ' ', '\xa0'])
     return s
 
 
-def gen_check(rng):
+def gen_check(rng, w=None):
     sp = rng.choice(OPSP)
-    w = gen_version(rng)
-    if rng.random() < 0.3:
+    w = gen_version(rng) if w is None else w
+    r = rng.random()
+    if r < 0.3:
         w = ' ' + w
-    return sp + w
+    elif r < 0.4:
+        w = rng.choice(BLANKS) + w + rng.choice(BLANKS)
+    c = sp + w
+    r = rng.random()
+    if r < 0.05:
+        c = ' ' + c            # a blank BEFORE the operator: the operator is not recognised
+    elif r < 0.08 and len(sp) == 2:
+        c = sp[0] + ' ' + sp[1] + w   # a blank inside the operator
+    elif r < 0.1:
+        c = sp + sp + w        # operator twice
+    return c
+
+
+def gen_checklist(rng, pool, n=None):
+    """constraint lists, with repeated and contradictory entries and equal bounds open/closed"""
+    n = rng.randint(0, 4) if n is None else n
+    r = rng.random()
+    if r < 0.25 and n >= 2:
+        v = rng.choice(pool)
+        ops = [rng.choice(['<', '<=', '>', '>=', '==', '!=', '=', '']) for _ in range(n)]
+        return [o + (v if rng.random() < 0.85 else rng.choice(pool)) for o in ops]
+    cl = [gen_check(rng) if rng.random() < 0.4 else rng.choice(OPSP) + rng.choice(pool) for _ in range(n)]
+    if cl and rng.random() < 0.2:
+        cl.insert(rng.randint(0, len(cl)), rng.choice(cl))   # repeated entry
+    return cl
 
 
 def exhaustive_strings(symbols, maxlen):
@@ -41,19 +97,79 @@ def exhaustive_strings(symbols, maxlen):
     return out
 
 
+# ---------------------------------------------------------------- search_version texts
+SV_DIG = ['1', '4', '12', '09', '100', '2020', '20140320', '12345', '0', '٣', '１２']
+SV_WORD = ['gcc', '(GCC)', 'version', 'clang', 'LLVM', 'v', 'Sourcery', 'Lite', '(prerelease)', 'x86_64-linux-gnu',
+           'Copyright', '(C)', 'ld.', 'rc', 'beta', '-', '--', 'a.b', '.', '..']
+SV_GLUE = [' ', ' ', ' ', '', '\n', '\t', '-', '.', ',', ')', '(', ':', 'v', '\xa0', '\u3000', '_', '+']
+
+
+def gen_dotted(rng):
+    n = rng.choice([1, 2, 2, 3, 3, 4, 5])
+    s = '.'.join(rng.choice(SV_DIG) for _ in range(n))
+    r = rng.random()
+    if r < 0.2:
+        s += '-' + rng.choice(['rc1', 'beta', '29', 'git', 'x_y', '', 'é1', 'a.1'])
+    elif r < 0.3:
+        s += rng.choice(['.', '..', '.-1', '-'])
+    return s
+
+
+def gen_text(rng):
+    parts = []
+    for _ in range(rng.randint(0, 6)):
+        parts.append(gen_dotted(rng) if rng.random() < 0.5 else rng.choice(SV_WORD))
+        parts.append(rng.choice(SV_GLUE))
+    if rng.random() < 0.3 and parts:
+        parts.pop()
+    return ''.join(parts)
+
+
+# ---------------------------------------------------------------- FeatureNew / FeatureDeprecated cases
+FVERS = ['0.46.0', '0.46', '0.47.0', '1.0.0', '1.1', '1.10.0', '0.0', '0', '1.0', '2.0.0', '0.46.0.0', '1.0.0rc1',
+         '0.50.1', '1.9.9', '10.0', '.0', '', '0.460', '1.00.0', '1.0.00']
+PVERS = ['0.46', '0.46.0', '0.47', '1.0', '1.0.0', '1.1', '1.9', '1.10', '2.0', '0', '0.45.9', '1']
+
+
+def gen_feat(rng):
+    kind = rng.choice(['new', 'new', 'new', 'dep', 'dep', 'brk'])
+    major = rng.choice(['1', '1', '0', '2', '10'])
+    tvk = rng.choice(['R', 'R', 'R', 'R', 'V', 'N'])
+    pv = rng.choice(['>=', '>=', '>=', '>', '==', '<', '<=', '!=', '', '>= ']) + rng.choice(PVERS)
+    conds = []
+    for _ in range(rng.choice([0, 0, 0, 1, 1, 2, 3])):
+        cs = [rng.choice(['>=', '>=', '<', '>', '<=', '==', '']) + rng.choice(PVERS) for _ in range(rng.choice([1, 1, 2, 3]))]
+        conds.append(SEP2.join(cs))
+    uses = []
+    names = ['f', 'g', 'kw.x']
+    for _ in range(rng.randint(1, 5)):
+        ver = rng.choice(FVERS) if rng.random() < 0.85 else rng.choice(PVERS) + rng.choice(['.0', '.0.0', ''])
+        uses.append(SEP2.join([rng.choice(names), ver, rng.choice(['', '', 'l1', 'l2'])]))
+    return ('feat', [kind, major, tvk, pv] + conds + [MARK] + uses)
+
+
 def replay(ctx):
     rec = json.load(open(ctx.replay))
     r = rec['replay']
-    print('replaying', json.dumps(r))
+    print('replaying', json.dumps(r)[:2000])
     if 'case' in r:
         res = run_impl('c19.py', {'cases': [r['case']]})
-        print('implementation:', repr(res['results'][0]))
+        print('implementation:', repr(res['results'][0])[:2000])
         ctx.build('Props/C19.v', 'Version/Extract.v', 'C19')
-        print('model         :', repr(ctx.run_model([tuple(r['case'])])[0]))
+        print('model         :', repr(ctx.run_model([tuple(r['case'])])[0])[:2000])
     if 'oracle' in r:
         res = run_impl('c19.py', {'oracle': [r['oracle']]})
         print('property clauses failing on the implementation:', json.dumps(res['oracle'], indent=1))
+    if 'feature_oracle' in r:
+        res = run_impl('c19.py', {'feature_oracle': [r['feature_oracle']]})
+        print('feature clauses failing on the implementation:', json.dumps(res['feature_oracle'], indent=1))
     return 0
+
+
+EQ_BOUNDS = [['<2.0', '<=2.0'], ['<=2.0', '<2.0'], ['>2.0', '>=2.0'], ['>=2.0', '>2.0'], ['>=2.0', '<=2.0'],
+             ['<=2.0', '>=2.0'], ['>2.0', '<=2.0'], ['>=2.0', '<2.0'], ['<2.0', '==2.0'], ['==2.0', '<2.0'],
+             ['==2.0', '!=2.0'], ['!=2.0', '==2.0'], ['>=2.0', '!=2.0', '<=2.0'], ['<=2', '<=2.0'], ['<2.0', '<2.0'],
+             ['>2.0'], ['>=2.0'], ['<2.0'], ['<=2.0'], ['==2.0'], ['!=2.0'], []]
 
 
 def run(ctx):
@@ -68,10 +184,44 @@ def run(ctx):
     corpus = [('cmp', ['1.9', '1.10']), ('cmp', ['1.0', '1_00']), ('cmp', ['1.a', '1.0']), ('cmp', ['', '0']),
               ('cmp', ['1.0', '1.0.0']), ('cmp', ['a', 'A']), ('vc', ['1.2.3', '>= 1.2']), ('vc', ['1.2.3', '=1.2.3']),
               ('many', ['1.5', '>=1.0', '<1.2', '!=1.5']), ('range', ['1.2', '>=1.2', '!=1.2', '<2.0']),
-              ('isect', ['1.5', '>=1.0', MARK, '<2.0']), ('cwm', ['>=0.50', '0.49']), ('cwm', ['<0.50', '0.49'])]
+              ('isect', ['1.5', '>=1.0', MARK, '<2.0']), ('cwm', ['>=0.50', '0.49']), ('cwm', ['<0.50', '0.49']),
+              ('cmp', ['1.٣', '1.3']), ('cmp', ['１２', '12']), ('cmp', ['1\U0001d7d81', '101']), ('tok', ['1٣a２.０7']),
+              ('cmp', ['1' * 40, '9' * 39]), ('cmp', ['0' * 30 + '1', '1']), ('cmp', ['1a2', '1.a.2']),
+              ('cmp', ['...', '']), ('cmp', ['1.0RC1', '1.0rc1']), ('vc', ['1.0', ' >=1.0']), ('vc', ['1.0', '>=\u3000 1.0\xa0']),
+              ('vc', ['1.0', '> =1.0']), ('vc', ['1.0', '>=>=1.0']), ('vc', ['1.0', '']), ('vc', ['', '']),
+              ('search', ['(Sourcery CodeBench Lite 2014.05-29) 4.8.3 20140320 (prerelease)']),
+              ('search', ['gcc (GCC) 12.2.0']), ('search', ['blah 2020.01.100 foo']), ('search', ['blah 2020.01 foo']),
+              ('search', ['clang version 14.0.0-1ubuntu1']), ('search', ['no version here']), ('search', ['']),
+              ('search', ['1.2.3.']), ('search', ['x1.2']), ('search', ['.1.2 3.4']), ('search', ['123.4 5.6-']),
+              ('search', ['12345.6']), ('search', ['1.2-rc.1']), ('search', ['٣.٤']),
+              ('fnorm', ['0.46.0']), ('fnorm', ['0.0']), ('fnorm', ['.0']), ('fnorm', ['1.0.0.0']), ('fnorm', ['1.00']),
+              ('feat', ['dep', '1', 'R', '>=0.46', MARK, 'f\x020.46.0\x02']),
+              ('feat', ['new', '1', 'R', '>=0.46', '>=0.50', MARK, 'f\x020.47.0\x02', 'f\x020.47.0\x02', 'g\x020.51\x02l1']),
+              ('feat', ['new', '1', 'V', '>=0.46', MARK, 'f\x020.47.0\x02', 'g\x021.0.0\x02']),
+              ('feat', ['brk', '1', 'N', '>=0.46', MARK, 'f\x020.47.0\x02']),
+              ('feat', ['new', '1', 'N', '>=0.46', MARK, 'f\x020.47.0\x02'])]
+    # the int() digit limit: runs of exactly and just above 4300 digits (cmp/vc/tok only: every argument is parsed).
+    # A 4300-digit run costs the extracted model seconds (binary N arithmetic), so quick has one, thorough several.
+    corpus.append(('cmp', ['7' * INT_LIMIT, '1.0']))
+    for n in (INT_LIMIT + 1, INT_LIMIT + 2, 2 * INT_LIMIT):
+        corpus.append(('cmp', ['7' * n, '1.0']))
+        corpus.append(('cmp', ['1.' + '0' * n, 'a' + '٣' * n + 'b']))
+        corpus.append(('vc', ['1.0', '>=' + '1' * n]))
+        corpus.append(('tok', ['x' + '１' * n]))
+    corpus.append(('cmp', ['1' * 700 + '.' + '2' * 700, '1' * 700 + 'x' + '٢' * 700]))
+    corpus.append(('vc', ['0' * 900 + '1', '==1']))
+    if thorough:
+        corpus.append(('cmp', ['1.' + '0' * INT_LIMIT, 'a' + '٣' * (INT_LIMIT - 1) + 'b']))
+        corpus.append(('vc', ['1.0', '>=' + '1' * INT_LIMIT]))
+        corpus.append(('cmp', ['1' * INT_LIMIT + '.' + '2' * INT_LIMIT, '1' * INT_LIMIT + 'x' + '2' * (INT_LIMIT + 1)]))
     cases += corpus
-    npairs = 300000 if thorough else 30000
-    nrange = 30000 if thorough else 3000
+    for a, b in itertools.product(EQ_BOUNDS, repeat=2):       # equal bounds, open/closed, both operand orders
+        cases.append(('isect', ['2.0'] + a + [MARK] + b))
+    for a in EQ_BOUNDS:
+        for x in ('1.9', '2.0', '2', '2.0.0', '2.1', ''):
+            cases.append(('range', [x] + a))
+    npairs = 600000 if thorough else 30000
+    nrange = 150000 if thorough else 4000
     pool = [gen_version(rng) for _ in range(400 if thorough else 150)]
     for _ in range(npairs):
         a = rng.choice(pool) if rng.random() < 0.7 else gen_version(rng)
@@ -82,19 +232,18 @@ def run(ctx):
         elif k < 0.55:
             cases.append(('tok', [a]))
         elif k < 0.8:
-            c = rng.choice(OPSP) + (' ' if rng.random() < 0.3 else '') + b
-            cases.append(('vc', [a, c]))
+            cases.append(('vc', [a, gen_check(rng, b)]))
         elif k < 0.9:
-            cases.append(('many', [a] + [gen_check(rng) for _ in range(rng.randint(0, 4))]))
+            cases.append(('many', [a] + gen_checklist(rng, pool)))
         else:
             cases.append(('cwm', [gen_check(rng), a]))
     for _ in range(nrange):
         x = rng.choice(pool)
-        ca = [gen_check(rng) if rng.random() < 0.5 else rng.choice(OPSP) + rng.choice(pool) for _ in range(rng.randint(0, 4))]
+        ca = gen_checklist(rng, pool)
         if rng.random() < 0.5:
             cases.append(('range', [x] + ca))
         else:
-            cb = [rng.choice(OPSP) + rng.choice(pool) for _ in range(rng.randint(0, 3))]
+            cb = gen_checklist(rng, pool, rng.randint(0, 3))
             cases.append(('isect', [x] + ca + [MARK] + cb))
     if thorough:
         # exhaustive: all strings of length <= 4 over a 7-symbol alphabet, pairwise (cmp)
@@ -110,43 +259,104 @@ def run(ctx):
         for a in ex:
             for b in ex:
                 cases.append(('cmp', [a, b]))
+    # search_version, feature glue
+    nsearch = 600000 if thorough else 6000
+    nfeat = 300000 if thorough else 4000
+    for _ in range(nsearch):
+        cases.append(('search', [gen_text(rng)]))
+    exs = exhaustive_strings(['1', '.', '-', ' ', 'a'], 7 if thorough else 5)
+    if thorough:
+        exs += exhaustive_strings(['1', '23', '.', '-', ' ', 'a', '\u0663', ','], 5)
+    ctx.extra['search_exhaustive_texts'] = len(exs)
+    for t in exs:
+        cases.append(('search', [t]))
+    for _ in range(nfeat):
+        cases.append(gen_feat(rng))
+        if rng.random() < 0.1:
+            cases.append(('fnorm', [rng.choice(FVERS + pool)]))
+    # every code point against re \d / [a-zA-Z] / int() / str.strip(), in blocks of 4096
+    sweep_cases = [('sweep', [str(lo), '4096']) for lo in range(0, 0x110000, 4096)]
+    ctx.extra['code_points_swept'] = 0x110000
+    ctx.extra['exhaustive_code_points'] = True   # digit class, digit value, letter class, blank class of every code point
 
     # implementation
     CH = 200000
     impl = []
     for i in range(0, len(cases), CH):
         impl += run_impl('c19.py', {'cases': cases[i:i + CH]})['results']
+    impl_sweep = run_impl('c19.py', {'cases': sweep_cases})['results']
     model = ctx.run_model(cases) if built else impl
+    model_sweep = ctx.run_model(sweep_cases, shards=NPROC) if built else impl_sweep
+    kinds = {}
     for (fn, args), ri, rm in zip(cases, impl, model):
         ctx.count((fn, tuple(args)), nontrivial=True)
+        kinds[fn] = kinds.get(fn, 0) + 1
+        if ri == rm:
+            if ri == 'EXC:ValueError' and max(map(len, args)) > INT_LIMIT:
+                ctx.violation('C19:int-max-str-digits', 'Version() raises ValueError on a run of more than 4300 digits: %s(%s)'
+                              % (fn, ', '.join('%s...[%d chars]' % (a[:12], len(a)) for a in args)), {'case': [fn, args]})
+            continue
+        if fn == 'feat' and built:
+            mi, mm = ri.split(SEP4), rm.split(SEP4)
+            if len(mi) == 5 and len(mm) == 6 and mi[:4] == mm[:4]:
+                if mi[4] == mm[4]:
+                    continue
+                if mi[4] == mm[5]:
+                    ctx.violation('C19:report-unnormalised-version', 'report() lists a feature whose usage warning was printed under the '
+                                  'notice heading (or the reverse): it compares the version as registered, use() the normalised one: %s'
+                                  % json.dumps(args), {'case': [fn, args]})
+                    continue
+        if len(ctx.disagreements) < 200:
+            ctx.disagreements.append({'case': [fn, args], 'implementation': ri, 'model': rm})
+    for (fn, args), ri, rm in zip(sweep_cases, impl_sweep, model_sweep):
+        ctx.count((fn, tuple(args)), nontrivial=True)
         if ri != rm:
-            if len(ctx.disagreements) < 200:
-                ctx.disagreements.append({'case': [fn, args], 'implementation': ri, 'model': rm})
-    ctx.cov['traces_validated_against_impl'] = len(cases)
+            lo = int(args[0])
+            k = next((i for i in range(min(len(ri), len(rm))) if ri[i] != rm[i]), 0)
+            ctx.disagreements.append({'case': ['sweep', [str(lo + k), '1']], 'implementation': ri[k:k + 1], 'model': rm[k:k + 1],
+                                      'note': 'character class of code point U+%04X (digit value / a=letter / s=blank / -)' % (lo + k)})
+    ctx.extra['digits_found'] = sum(sum(ch.isdigit() for ch in r) for r in impl_sweep)
+    ctx.extra['case_kinds'] = kinds
+    ctx.cov['traces_validated_against_impl'] = len(cases) + len(sweep_cases)
     for s in cases[:3] + cases[len(corpus) + 5:len(corpus) + 9] + cases[-2:]:
-        ctx.sample({'fn': s[0], 'args': s[1]})
+        ctx.sample({'fn': s[0], 'args': [a if len(a) < 80 else a[:40] + '...[%d chars]' % len(a) for a in s[1]]})
     if built:
-        ctx.kernel_crosscheck('Version.Entry', cases, model, limit=300)
+        light = [i for i, c in enumerate(cases) if max([len(a) for a in c[1]] + [0]) < 200]
+        ctx.kernel_crosscheck('Version.Entry', [cases[i] for i in light] + sweep_cases[:2],
+                              [model[i] for i in light] + model_sweep[:2], limit=300)
 
     # the property's clauses evaluated directly on the implementation (failing-input search)
     groups = []
-    ngroups = (400 if thorough else 60)
+    ngroups = (1200 if thorough else 60)
     if ctx.disagreements:
         ngroups *= 3
         # neighbourhood of every disagreeing case
         for d in ctx.disagreements[:40]:
-            strs = [a for a in d['case'][1] if a != MARK]
+            if d['case'][0] not in ('cmp', 'tok', 'vc', 'many', 'range', 'isect', 'cwm'):
+                continue
+            strs = [a for a in d['case'][1] if a != MARK and len(a) < 200]
             vers = [s.lstrip('<>=! ') for s in strs] + strs
             groups.append({'strings': list(dict.fromkeys(vers + rng.sample(pool, 6)))[:14],
                            'checklists': [[s] for s in strs[:6]] + [strs[1:5]]})
+    short = [p for p in pool if len(p) < 200]
     for _ in range(ngroups):
-        strs = rng.sample(pool, 10) + [gen_version(rng) for _ in range(3)]
-        cls = [[rng.choice(OPSP) + rng.choice(strs) for _ in range(rng.randint(0, 3))] for _ in range(8)]
+        strs = rng.sample(short, 10) + [gen_version(rng) for _ in range(3)]
+        cls = [[rng.choice(OPSP) + rng.choice(strs) for _ in range(rng.randint(0, 3))] for _ in range(6)]
+        cls += [gen_checklist(rng, strs, rng.randint(2, 3)) for _ in range(2)]
         groups.append({'strings': strs, 'checklists': cls})
     ex3 = exhaustive_strings(['1', '0', 'a', '.'], 3 if not thorough else 3)
     groups.append({'strings': ex3[:60], 'checklists': [['>=1'], ['<1.a'], ['!=1', '>=1'], ['==1.0'], []]})
-    res = run_impl('c19.py', {'oracle': groups})
+    groups.append({'strings': ['1.9', '2.0', '2', '2.0.0', '2.1', '', '2.0a', '2.00'], 'checklists': EQ_BOUNDS[:16]})
+    groups.append({'strings': ['1.٣', '1.3', '１２', '12', '1.٣a', '1.4', '٠', '0', '00', '1\U0001d7d8', '10', 'A', 'a'],
+                   'checklists': [['>=1.٣'], ['<１２'], ['==٠'], ['>1.3', '<=１２']]})
+    fgroups = []
+    for _ in range(900 if thorough else 40):
+        fgroups.append({'major': rng.choice(['1', '0', '2']), 'pvs': [rng.choice(['>=', '>=', '>', '==', '<', '<=', '']) + rng.choice(PVERS) for _ in range(4)],
+                        'conds': [[rng.choice(['>=', '<', '>', '<=', '==']) + rng.choice(PVERS) for _ in range(rng.randint(1, 2))] for _ in range(rng.randint(0, 2))],
+                        'fvers': rng.sample(FVERS, 6), 'xs': rng.sample(PVERS + FVERS, 10) + rng.sample(short, 4)})
+    res = run_impl('c19.py', {'oracle': groups, 'feature_oracle': fgroups})
     ctx.extra['oracle_groups'] = len(groups)
+    ctx.extra['feature_oracle_groups'] = len(fgroups)
     for f in res['oracle']:
         ident = 'C19:%s:%s' % (f['kind'], json.dumps({k: v for k, v in f.items() if k != 'kind'}, sort_keys=True))
         grp = {'strings': [v for k, v in f.items() if k in ('a', 'b', 'c', 'x', 'v')] or f.get('strings', []),
@@ -155,23 +365,47 @@ def run(ctx):
             grp = {'strings': [f['x']], 'checklists': [f['a'], f['b']]}
         ctx.violation(ident, 'property clause %s fails on the implementation: %s' % (f['kind'], json.dumps(f)),
                       {'oracle': grp, 'failure': f})
+    for f in res['feature_oracle']:
+        ident = f.pop('ident', None) or 'C19:%s:%s' % (f['kind'], json.dumps({k: v for k, v in f.items() if k != 'kind'}, sort_keys=True))
+        ctx.violation(ident, 'feature-check clause %s fails on the implementation: %s' % (f['kind'], json.dumps(f)),
+                      {'feature_oracle': f.get('group', {}), 'failure': {k: v for k, v in f.items() if k != 'group'}})
     # an implementation/model disagreement where the model's answer is forced by a theorem and the
     # observable is itself what the property fixes (operator results) is a concrete failing input too
     if ctx.disagreements and not ctx.violations:
         for d in ctx.disagreements:
             if d['implementation'].startswith('EXC:') or d['implementation'].endswith('HASH'):
-                ctx.violation('C19:exc:' + json.dumps(d['case']), 'implementation raises / hashes inconsistently on %s: %s'
-                              % (json.dumps(d['case']), d['implementation']), {'case': d['case']})
+                ctx.violation('C19:exc:' + json.dumps(d['case'])[:300], 'implementation raises / hashes inconsistently on %s: %s'
+                              % (json.dumps(d['case'])[:300], d['implementation']), {'case': d['case']})
+                break
+    # the callers and helpers whose answer the theorems fix as a function of the input (tokenizer classes:
+    # C19_digit_class/C19_tokenize_dotted; search_version: C19_search_version_*; feature_version normalisation and
+    # use()/report(): C19_feature_norm, C19_use_warns_iff, C19_report_consistent_with_use): the first input on which
+    # the implementation answers differently is the concrete failing input
+    if ctx.disagreements and not ctx.violations:
+        for d in sorted(ctx.disagreements, key=lambda d: len(json.dumps(d['case']))):
+            if d['case'][0] in ('sweep', 'tok', 'search', 'fnorm', 'feat'):
+                ctx.violation('C19:differs-from-verified-model:' + json.dumps(d['case'])[:300],
+                              '%s%s: the implementation answers %r, the verified model %r'
+                              % (d['case'][0], json.dumps(d['case'][1])[:300], d['implementation'][:200], d['model'][:200]),
+                              {'case': d['case']})
                 break
     return ctx.finish(
         level='proof',
         trusted=['Coq 8.16.1 kernel (coqc, vm_compute; no native_compute)',
                  'extraction with ExtrOcamlBasic directives only + OCaml 4.13.1 + extract/driver.ml (cross-checked in-kernel on a sample each run)',
-                 'harness/check_C19.py generators and harness/impl/c19.py adapter/canonicaliser',
-                 'model covers universal.py:968-1205; not modelled: non-ASCII \\d digits, str() of Range, search_version'],
+                 'harness/check_C19.py generators and harness/impl/c19.py adapter/canonicaliser (the adapter repeats the three glue '
+                 'lines of evaluate_if / handle_meson_version that install the target range; every function they call is the real one)',
+                 'model covers universal.py:968-1247 and decorators.py:656-870 (check_version, use, report headings); '
+                 'not modelled: str() of Range and all message texts'],
         assumptions=['Print Assumptions: all property theorems closed under the global context (no axioms)',
-                     'Python regex \\d restricted to ASCII digits in generated inputs'],
-        rule='seeded generator of version strings over a component alphabet (digit runs incl. leading zeros, alpha runs, '
-             'separators, blanks, non-ASCII filler) and constraint lists; each case is run through the implementation and the '
+                     'the Unicode decimal-digit table of Version/Unicode.v equals the running Python\'s re \\d / int(): swept over all 0x110000 code points on every run',
+                     'Version() on a digit run longer than 4300 characters raises ValueError (modelled: version_init; known finding C19:int-max-str-digits); '
+                     'such runs are generated for cmp/vc/tok only'],
+        rule='seeded generator of version strings over a component alphabet (digit runs incl. leading zeros, 18-60 digit runs, Unicode '
+             'decimal digits mixed with ASCII, alpha runs in both cases, mixed alnum, separators, Unicode blanks, lone surrogates, empty / '
+             'separator-only strings), constraints with blanks before/inside/after the operator and doubled operators, constraint lists with '
+             'repeated and contradictory entries, all pairs of equal-bound open/closed ranges in both operand orders, compiler-banner-like texts '
+             'and all texts of length <= 5 over {1 . - blank a} for search_version, FeatureNew/Deprecated/Broken use sequences under generated '
+             'meson_version constraints and nested version_compare conditions; each case is run through the implementation and the '
              'extracted Coq model and compared; distinct = distinct (function,arguments) tuples; every case exercises tokenizer '
              'and comparison so all are non-trivial')
